@@ -149,6 +149,8 @@ def forwarded_names(func):
 
 
 def run(repo, rep, tier):
+    explicit_namespace_wins(repo, rep, 'C04.R8')
+    twin_target_normalisation(repo, rep)
     r1 = rep.rule('C04.R1', 'client IPARAMVALUE names = keys read by the '
                   'server-side adapter')
     r2 = rep.rule('C04.R2', 'None is omitted, everything else is sent')
@@ -697,3 +699,115 @@ def _linearity(repo, rep):
         rr.ob(i >= len(bad), 'node-%d' % i)
     for file, func, construct, fact, line, msg in finds:
         rep.finding(rr, func, construct, fact, file, line, msg)
+
+
+def explicit_namespace_wins(repo, rep, rid):
+    """An operation takes the namespace from its object argument only when
+    no namespace was given explicitly: `namespace = X.namespace` is
+    executed only where `namespace is None` is known.  All operations (and
+    the Iter* functions that choose between the pull and the traditional
+    operation) follow this one rule; an operation that lets the object's
+    namespace override the explicit argument talks to another namespace
+    than its siblings for the same arguments."""
+    from ..cfg import stmt_facts, GuardWalker
+    r = rep.rule(rid, 'the namespace of an object argument is used only when '
+                 'no explicit namespace was given')
+    conn = repo.cls(OPS, 'WBEMConnection')
+    for f in conn.methods.values():
+        if 'namespace' not in f.params:
+            continue
+        for st, (fs, _t) in stmt_facts(f.node).items():
+            if not (isinstance(st, ast.Assign) and
+                    norm(st.targets[0]) == 'namespace' and
+                    isinstance(st.value, ast.Attribute) and
+                    st.value.attr == 'namespace'):
+                continue
+            r.sites += 1
+            r.functions.add(f.fq)
+            atoms = []
+            for t, p in fs:
+                atoms += [(norm(a), q) for a, q in GuardWalker._atoms(t, p)]
+            ok = ('namespace is None', True) in atoms or \
+                ('namespace is not None', False) in atoms or \
+                ('namespace', False) in atoms
+            r.ob(ok, '%s|%s' % (f.name, norm(st)))
+            if not ok:
+                rep.finding(r, f.qualname, norm(st), 'object-namespace-wins',
+                            OPS, st.lineno,
+                            'in %s the namespace of the object argument '
+                            'replaces an explicitly given namespace '
+                            '(conditions: %s); the sibling operations use '
+                            'it only when namespace is None, so e.g. the '
+                            'pull branch of an Iter* call enumerates '
+                            'another namespace than the traditional '
+                            'operation with the same arguments'
+                            % (f.name, ', '.join(
+                                '%s%s' % ('' if q else 'not ', a)
+                                for a, q in atoms) or 'none'))
+    if r.sites < 10:
+        raise AnalysisError('%s: only %d namespace defaulting sites found'
+                            % (rid, r.sites))
+
+
+def twin_target_normalisation(repo, rep):
+    """C04.R9: the CIM-XML path (_methodcall) and the direct path
+    (_mock_methodcall) hand on the same normalised target: a copy of the
+    object name with host None and a namespace.  Decided by a must-analysis
+    of attribute None-ness on the CFG (pwsa/attrstate.py) at the point where
+    the target leaves the function: if on some path the host is not known
+    to be None (e.g. it is only cleared when the namespace had to be
+    defaulted), the direct path looks up a host-qualified path in a store
+    keyed by host-less paths (CIM_ERR_NOT_FOUND) while the CIM-XML path
+    succeeds."""
+    from .. import attrstate
+    r9 = rep.rule('C04.R9', 'extrinsic method target is host-less and has a '
+                  'namespace on both paths')
+    nonnull = attrstate.verified_nonnull(repo)
+    sites = [(repo.cls(OPS, 'WBEMConnection'), '_methodcall',
+              lambda c: isinstance(c.func, ast.Attribute) and
+              c.func.attr == 'tocimxml' and
+              isinstance(c.func.value, ast.Name)),
+             (repo.cls(MOCK, 'FakedWBEMConnection'), '_mock_methodcall',
+              lambda c: (dotted(c.func) or '').endswith('_meth_InvokeMethod'))]
+    for cls, fn, is_exit in sites:
+        f = cls.methods.get(fn)
+        if f is None:
+            raise AnalysisError('%s.%s vanished' % (cls.name, fn))
+        r9.functions.add(f.fq)
+        exits = [c for c in walk_no_nested(f.node)
+                 if isinstance(c, ast.Call) and is_exit(c)]
+        if not exits:
+            raise AnalysisError('%s: the point where the target is handed '
+                                'on was not found' % fn)
+        for c in exits:
+            if isinstance(c.func, ast.Attribute) and \
+                    c.func.attr == 'tocimxml':
+                var = c.func.value.id
+            else:
+                names = [a.id for a in c.args if isinstance(a, ast.Name)]
+                var = next((n for n in names if 'object' in n or
+                            'path' in n), names[0] if names else None)
+            r9.sites += 1
+            atoms = attrstate.atoms_before(f, c, repo, nonnull)
+            host_none = (var + '.host', 'none', True) in atoms
+            ns_set = (var + '.namespace', 'none', False) in atoms
+            r9.ob(host_none and ns_set, '%s|%s' % (fn, norm(c, 50)),
+                  {'target': var, 'host_is_none': host_none,
+                   'namespace_set': ns_set,
+                   'nonnull_assumptions': sorted(nonnull)})
+            if not (host_none and ns_set):
+                what = []
+                if not host_none:
+                    what.append('%s.host is not None on some path' % var)
+                if not ns_set:
+                    what.append('%s.namespace may be None' % var)
+                rep.finding(r9, f.qualname, norm(c, 70),
+                            'target-not-normalised', f.file, c.lineno,
+                            '%s: the target handed on is not the '
+                            'normalised (host-less, namespace set) object '
+                            'on every path.  The instance store and the '
+                            'CIM-XML LOCALINSTANCEPATH are host-less, so a '
+                            'path that carries host and namespace (as '
+                            'returned by AssociatorNames) behaves '
+                            'differently on the direct and the CIM-XML '
+                            'path' % '; '.join(what))
